@@ -8,7 +8,8 @@ Parts
 * `expandBnd`, `expandMove`  : scalar / per-signal / per-variable `xmin xmax move` (`MMA.response` lines 325-358)
 * `mmasubPre`                : `MMA.mmasub` up to the call of `subsolv` (asymptote offsets, `low upp alfa beta P Q b`)
 * `residual`, `subsolv`      : the primal-dual interior point solver, statement by statement
-* `run`                      : the outer loop of `MMA.response` with the scalar/array write-back rule
+* `run`                      : the outer loop of `MMA.response` with the scalar/array write-back rule and the
+                               per-response sensitivity collection (`None` sensitivity of a variable signal = zeros)
 
 Python details kept: `'1987' in mmaversion` is tested before `'2007' in mmaversion`; the line search is a `for … range(400)`
 whose variables keep the LAST trial point when no `break` happens; `max(a, b, …)` of Python keeps the first maximal
@@ -507,8 +508,19 @@ def subsolv [LT α] [DecidableLT α] [Add α] [Sub α] [Mul α] [Div α] [Neg α
 
 /-! ## the outer loop of `MMA.response` -/
 
-/-- the network: design ↦ (`m+1` response values, gradients `dg i j`) -/
-abbrev Problem (α : Type) := (Nat → α) → (Nat → α) × (Nat → Nat → α)
+/-- the network: design ↦ (`m+1` response values, and for every response `i` what back-propagation of that response
+    alone leaves in the variable signals: one entry per signal, `none` = `v.sensitivity is None`, i.e. the response is
+    not connected to that signal) -/
+abbrev Problem (α : Type) := (Nat → α) → (Nat → α) × (Nat → List (Option (List α)))
+
+/-- sensitivity collection of ONE response (lines 407-410):
+    `sens_list.append(v.sensitivity if v.sensitivity is not None else 0*v.state)` for every variable signal, then
+    `_concatenate_to_array(sens_list)`.  A fresh list per response: a signal without sensitivity contributes zeros. -/
+def collectSens [OfNat α 0] : List (St α) → List (Option (List α)) → List α
+  | [], _ => []
+  | _ :: _, [] => []
+  | st :: sts, none :: ss => st.flat.map (fun _ => (0 : α)) ++ collectSens sts ss
+  | _ :: sts, some l :: ss => l ++ collectSens sts ss
 
 /-- everything fixed during a run -/
 structure Setup (α : Type) where
@@ -570,7 +582,10 @@ def runStep [LT α] [DecidableLT α] [Add α] [Sub α] [Mul α] [Div α] [Neg α
   let xvA := xvL.toArray
   let xv := ofArr xvA
   let s := { s with states := states, trace := states :: s.trace }
-  let (g, dg) := prob xv
+  let (g, sens) := prob xv
+  -- "Calculate and save sensitivities": one collection per response, reset in between
+  let dgA := ((List.range (su.m + 1)).map (fun i => (collectSens states (sens i)).toArray)).toArray
+  let dg := fun i j => ofArr (dgA.getD i #[]) j
   let fprev := s.fcur
   let fcur := g 0
   let rel_fchange := vabs (fcur - fprev) / vabs fcur
